@@ -34,3 +34,12 @@ package parse
 //@   opt nosafety
 //@   ensures result is ast.ApplyFn ==> strings.isPrefix("fn:", (result as ast.ApplyFn).Function.Symbol)
 //@   ensures result is ast.ApplyFn || result is ast.Atom
+
+// ---- C09: every stage of a transform chain is kept --------------------------------------------------------------
+// The stages written after "|>" are linked in order: after each stage is visited, the end of the chain IS that stage
+// (a fresh object), so the next one is linked behind it and none is overwritten.
+//@ func (p Parser) VisitClauseBody(ctx)
+//@   opt nosafety
+//@   loop 2 invariant lastTransform == nil || allocated(lastTransform)
+//@   loop 2 atback lastTransform != prev(lastTransform) && lastTransform != nil
+
